@@ -108,13 +108,16 @@ def find_poll_leaf(facts):
 
 
 def find_wake_fn(facts):
+    """role: the function (or the function whose closure) calls Waker::wake."""
     out = []
     for f in facts.fns.values():
-        if f.crate != EY or f.kind in ("closure", "coroutine"):
+        if f.crate != EY:
             continue
         b = f.built
         if b and b.calls(r"^std::task::Waker::wake$"):
-            out.append(f)
+            r = root_fn(facts, f)
+            if r not in out:
+                out.append(r)
     return out
 
 
